@@ -1,3 +1,15 @@
-/-! Model for property C07 (core Lean only; no Mathlib). -/
+import Ptn.C05.Model
+import Ptn.C06.Model
+/-! Model for property C07 (second-order two-site TDVP); core Lean only.
+The schedule is `Ptn.C05.twoSite`; flows and centre tracking come from `Ptn.C06`.
+`keptCount` is the number of singular values a truncated split keeps (C10: `k` values pass the
+tolerance test, at least one is kept, at most `D`). -/
 namespace Ptn.C07
+
+/-- `D = none` is an unbounded maximum bond dimension. -/
+def keptCount (k : Nat) (D : Option Nat) : Nat :=
+  match D with
+  | some d => min (max k 1) d
+  | none => max k 1
+
 end Ptn.C07
